@@ -160,6 +160,8 @@ def build(reg, src):
         st.env['v'] = VOpaque(hint='v', nonnull=True)
         st.env['call_fn'] = VFunc('call_fn', model=user_fn_model)
     reg.fn(A + 'multi_jacobian_of_fn.single_param_fn', setup=spf_setup, returns='opaque', ensures=[bind_same], ensures_exc=[bind_same])
+    reg.fns[A + 'multi_jacobian_of_fn.single_param_fn'].closure_requires = [
+        lambda s: same(s.orig, VOpaque(z3.Select(s.st.ghost['bind'].t, s.s.t), nonnull=True)) if s.has('orig') and s.has('s') else VBool(True)]
 
     def func_setup(eng, st):
         base_setup(eng, st)
@@ -169,6 +171,9 @@ def build(reg, src):
         st.env['v'] = VOpaque(hint='v', nonnull=True)
         st.env['call_fn'] = VFunc('call_fn', model=user_fn_model)
     reg.fn(DY + 'eval_dyad_grad.func', setup=func_setup, returns='opaque', ensures=[bind_same], ensures_exc=[bind_same])
+    # what func's setup assumes about its captured `orig` is an obligation where eval_dyad_grad creates the closure
+    reg.fns[DY + 'eval_dyad_grad.func'].closure_requires = [
+        lambda s: same(s.orig, VOpaque(z3.Select(s.st.ghost['bind'].t, s.a.t), nonnull=True)) if s.has('orig') and s.has('a') else VBool(False)]
 
     # ---------------- entry points: both exits leave bindings and arrays alone (callees by contract)
     def mj_setup(n):
